@@ -201,11 +201,17 @@ func (m *Module) rejected(w *engine.World, tx *engine.TxRecord, op *engine.Op, s
 	case "mint":
 		var a mintArgs
 		op.Decode(&a)
+		if !m.normMint(&a) {
+			return
+		}
 		t := m.byMin[a.Denom]
 		if t == nil {
 			return
 		}
 		if t.Owner != sender {
+			if a.Legacy {
+				w.Hit("token.legacy_non_owner_mint_rejected")
+			}
 			w.Hit("token.non_owner_rejected")
 			m.noteStale(w, t, sender)
 			return
@@ -235,6 +241,32 @@ func (m *Module) rejected(w *engine.World, tx *engine.TxRecord, op *engine.Op, s
 	case "params":
 		w.Hit("token.params_rejected")
 	}
+}
+
+// normMint / normBurn resolve a legacy (symbol, main units) operation with the model's token
+// at judgement time, exactly as the legacy handler resolves it with the stored token.
+func (m *Module) normMint(a *mintArgs) bool {
+	if !a.Legacy {
+		return true
+	}
+	t := m.toks[a.Symbol]
+	if t == nil {
+		return false
+	}
+	a.Denom, a.Amount = t.MinUnit, mul(new(big.Int).SetUint64(u64Of(a.Main)), pow10(t.Scale)).String()
+	return true
+}
+
+func (m *Module) normBurn(a *burnArgs) bool {
+	if !a.Legacy {
+		return true
+	}
+	t := m.toks[a.Symbol]
+	if t == nil {
+		return false
+	}
+	a.Denom, a.Amount = t.MinUnit, mul(new(big.Int).SetUint64(u64Of(a.Main)), pow10(t.Scale)).String()
+	return true
 }
 
 func (m *Module) noteStale(w *engine.World, t *tok, sender string) {
@@ -330,6 +362,10 @@ func (m *Module) feeSplit(w *engine.World, kind string, sh *engine.Sheet, owner 
 	// split is reported once, under its own key
 	want.Put(owner, feeMin, neg(fee))
 	want.Put(collector, feeMin, got)
+	if kept.Sign() != 0 {
+		want.Put(modAddr, feeMin, kept)
+		m.hold(modAddr, feeMin, kept) // reported above; keep the residue check quiet about it
+	}
 	if sup[feeMin] == nil {
 		sup[feeMin] = new(big.Int)
 	}
@@ -378,6 +414,9 @@ func (m *Module) onIssue(w *engine.World, tx *engine.TxRecord, op *engine.Op, sh
 	var a issueArgs
 	op.Decode(&a)
 	owner := w.A(op.Actor).Addr.String()
+	if a.Legacy {
+		w.Hit("token.legacy_route." + op.Kind)
+	}
 	w.Hit("C09.identity_checks")
 	// C09: "A token's symbol and minimum unit each identify at most one token forever."
 	if o := m.toks[a.Symbol]; o != nil {
@@ -392,8 +431,17 @@ func (m *Module) onIssue(w *engine.World, tx *engine.TxRecord, op *engine.Op, sh
 	if mx := u64Of(a.Max); mx != 0 {
 		t.Max, t.MaxKnown = mx, true
 	}
+	if m.phantomDenom[a.MinUnit] {
+		t.Tainted = true // coins of this denom were minted by a swap before any token declared it (reported there)
+	}
 	m.addTok(t)
 	w.Hit("token.issued")
+	if o := m.byMin[a.Symbol]; o != nil && o != t {
+		w.Hit("token.collision_symbol_is_min_unit")
+	}
+	if o := m.toks[a.MinUnit]; o != nil && o != t {
+		w.Hit("token.collision_symbol_is_min_unit")
+	}
 	for _, g := range m.ghosts {
 		if g.Symbol == a.Symbol && g.MinUnit != a.MinUnit {
 			w.Hit("token.ghost_reissued_other_minunit")
@@ -434,6 +482,13 @@ func (m *Module) onMint(w *engine.World, tx *engine.TxRecord, op *engine.Op, sh 
 	var a mintArgs
 	op.Decode(&a)
 	owner := w.A(op.Actor).Addr.String()
+	if !m.normMint(&a) {
+		m.ghostAccepted(w, "mint", "symbol", a.Symbol, owner)
+		return
+	}
+	if a.Legacy {
+		w.Hit("token.legacy_route." + op.Kind)
+	}
 	t := m.byMin[a.Denom]
 	if t == nil {
 		m.ghostAccepted(w, "mint", "min unit", a.Denom, owner)
@@ -479,6 +534,13 @@ func (m *Module) onBurn(w *engine.World, tx *engine.TxRecord, op *engine.Op, sh 
 	var a burnArgs
 	op.Decode(&a)
 	sender := w.A(op.Actor).Addr.String()
+	if !m.normBurn(&a) {
+		m.ghostAccepted(w, "burn", "symbol", a.Symbol, sender)
+		return
+	}
+	if a.Legacy {
+		w.Hit("token.legacy_route." + op.Kind)
+	}
 	amt := bigOf(a.Amount)
 	t := m.byMin[a.Denom]
 	if t == nil {
@@ -515,6 +577,9 @@ func (m *Module) onEdit(w *engine.World, tx *engine.TxRecord, op *engine.Op, sh 
 	var a editArgs
 	op.Decode(&a)
 	sender := w.A(op.Actor).Addr.String()
+	if a.Legacy {
+		w.Hit("token.legacy_route." + op.Kind)
+	}
 	t := m.toks[a.Symbol]
 	if t == nil {
 		m.ghostAccepted(w, "edit", "symbol", a.Symbol, sender)
@@ -566,6 +631,9 @@ func (m *Module) onTransfer(w *engine.World, tx *engine.TxRecord, op *engine.Op,
 	var a transferArgs
 	op.Decode(&a)
 	sender := w.A(op.Actor).Addr.String()
+	if a.Legacy {
+		w.Hit("token.legacy_route." + op.Kind)
+	}
 	t := m.toks[a.Symbol]
 	if t == nil {
 		m.ghostAccepted(w, "transfer", "symbol", a.Symbol, sender)
@@ -664,6 +732,13 @@ func (m *Module) onToERC20(w *engine.World, tx *engine.TxRecord, op *engine.Op, 
 	}
 	w.Hit("C10.conversion_checks")
 	w.Hit("token.to_erc20")
+	if o := m.toks[a.Denom]; o != nil && o != t {
+		// the coin's min unit is also another token's symbol
+		w.Hit("token.collision_conversion")
+		if o.Contract != "" {
+			w.Hit("token.collision_conversion_both_bound")
+		}
+	}
 	t.Tainted = true
 	m.note(t.Contract).accepted = true
 	// C10: "Converting a token to its ERC20 form burns exactly the converted amount natively
@@ -737,12 +812,37 @@ func (m *Module) onFeeSwap(w *engine.World, tx *engine.TxRecord, i int, op *engi
 		return
 	}
 	tin, tout := m.byMin[p.In], m.byMin[p.Out]
+	if tin != nil && tout == nil && m.toks[p.Out] != nil {
+		// the configured pay-out MIN UNIT is declared by no token, but the same string is the
+		// SYMBOL of one: the swap paid out coins of a denom that no token declares
+		o := m.toks[p.Out]
+		m.phantomDenom[p.Out] = true
+		w.Violate("C10", "fee-swap/payout-resolved-by-symbol/undeclared-denom", "fee-token swap %s -> %s accepted and minted %s%s although no token declares min unit %s; the string is the symbol of token %s/%s (scale %d)",
+			p.In, p.Out, sh.SupplyOf(p.Out), p.Out, p.Out, o.Symbol, o.MinUnit, o.Scale)
+		return
+	}
 	if tin == nil || tout == nil {
+		m.phantomDenom[p.Out] = true
 		w.Violate("C10", "fee-swap/unknown-token", "fee-token swap %s -> %s accepted although the harness never saw both tokens", p.In, p.Out)
 		return
 	}
+	// identifiers colliding across kinds: the pay-out min unit is also another token's symbol
+	collide := ""
+	if o := m.toks[p.Out]; o != nil && o != tout {
+		collide = "/payout-min-unit-is-a-symbol"
+		w.Hit("token.feeswap_payout_collides_with_symbol")
+	}
 	w.Hit("C10.feeswap_checks")
 	tin.Tainted, tout.Tainted = true, true
+	for _, g := range m.ghosts {
+		if g.MinUnit == p.Out && g.Cause == "failtail" {
+			w.Hit("token.feeswap_after_payout_ghost")
+			break
+		}
+	}
+	if m.toks[p.Out] != nil || m.toks[p.In] != nil {
+		w.Hit("token.collision_feeswap")
+	}
 	rcpt := a.Receiver
 	if rcpt == "" {
 		rcpt = sender
@@ -766,7 +866,7 @@ func (m *Module) onFeeSwap(w *engine.World, tx *engine.TxRecord, i int, op *engi
 		shape = "ratio-above-1"
 	}
 	if lhs.Cmp(rhs) > 0 {
-		w.Violate("C10", "fee-swap/over-minted/"+shape, "swap %s -> %s at ratio %s/1e18, scales %d -> %d: offered %s, burned %s, minted %s; the burned amount is worth only %s", p.In, p.Out, p.Ratio, tin.Scale, tout.Scale, offered, burned, minted, new(big.Rat).Quo(rhs, new(big.Rat).SetInt(pow10(tin.Scale))).FloatString(20))
+		w.Violate("C10", "fee-swap/over-minted/"+shape+collide, "swap %s -> %s at ratio %s/1e18, scales %d -> %d: offered %s, burned %s, minted %s; the burned amount is worth only %s", p.In, p.Out, p.Ratio, tin.Scale, tout.Scale, offered, burned, minted, new(big.Rat).Quo(rhs, new(big.Rat).SetInt(pow10(tin.Scale))).FloatString(20))
 	}
 	kept := sub(offered, burned)
 	if one {
@@ -774,11 +874,11 @@ func (m *Module) onFeeSwap(w *engine.World, tx *engine.TxRecord, i int, op *engi
 		// C10: "at ratio 1 it is exact (burned x 10^scale_out = minted x 10^scale_in) and any
 		// unconvertible dust stays with the sender"
 		if lhs.Cmp(rhs) != 0 {
-			w.Violate("C10", "fee-swap/ratio-1-inexact", "swap %s -> %s at ratio 1, scales %d -> %d: burned %s, minted %s", p.In, p.Out, tin.Scale, tout.Scale, burned, minted)
+			w.Violate("C10", "fee-swap/ratio-1-inexact"+collide, "swap %s -> %s at ratio 1, scales %d -> %d: burned %s, minted %s", p.In, p.Out, tin.Scale, tout.Scale, burned, minted)
 		}
 		// what stays behind is dust only: it would not make a single unit of the output
 		if kept.Sign() > 0 && mul(kept, pow10(tout.Scale)).Cmp(pow10(tin.Scale)) >= 0 {
-			w.Violate("C10", "fee-swap/ratio-1-kept-convertible", "swap %s -> %s at ratio 1, scales %d -> %d: offered %s, burned only %s although the remainder %s converts to whole units", p.In, p.Out, tin.Scale, tout.Scale, offered, burned, kept)
+			w.Violate("C10", "fee-swap/ratio-1-kept-convertible"+collide, "swap %s -> %s at ratio 1, scales %d -> %d: offered %s, burned only %s although the remainder %s converts to whole units", p.In, p.Out, tin.Scale, tout.Scale, offered, burned, kept)
 		}
 	}
 	if kept.Sign() > 0 {
@@ -1047,7 +1147,7 @@ func (m *Module) checkEVM(w *engine.World, ctx sdk.Context) {
 		}
 		t := m.toks[sym]
 		for _, a := range w.Actors {
-			resp, err := w.Node.K.Token.Balances(ctx, &v1.QueryBalancesRequest{Address: a.Addr.String(), Denom: t.MinUnit})
+			resp, err := w.Node.K.Token.Balances(ctx, &v1.QueryBalancesRequest{Address: a.Addr.String(), Denom: t.Symbol})
 			if err != nil {
 				w.Violate("C10", "balances-query/failed", "balances query for %s of %s failed: %v", a.Addr, t.MinUnit, err)
 				break
